@@ -189,15 +189,31 @@ def r5(ctx, prog):
         # strictly after: a comparison curr < next (or curr >= next handled by stepping) guards/precedes the true return
         strict = False
         why = ''
-        for st in f.stmts:
-            if st and st['k'] == 'BinaryOperator' and st.get('op') in ('<', '>=', '>', '<='):
-                ds = [f.s(f.strip_casts(c)).get('d') for c in st['ch']]
-                if cur['d'] in ds and out['d'] in ds:
-                    l_is_cur = ds[0] == cur['d']
-                    op = st['op']
-                    if (l_is_cur and op in ('<', '>=')) or ((not l_is_cur) and op in ('>', '<=')):
-                        strict = True
-                        why = 'compares curr_local_ts with the candidate (%s)' % op
+        # every `return true` is justified: an edge in force there says curr < candidate, or the test "curr >= candidate" is repaired by advancing the candidate
+        # by a positive constant on every path from its true edge to the return
+        just = []
+        for r, flag, facts_ in true_returns(f):
+            rp = q.pt_or_term(f, r)
+            ok_r = False
+            for cond, k, b in list(q.guards_incl_flags(f, rp)) + [(c_, k_, None) for c_, k_ in facts_]:
+                for l, o, rr in q.edge_rels(f, cond, k):
+                    if l == cur['n'] and rr == out['n'] and o == '<':
+                        ok_r, why = True, 'an edge in force at the return says %s < %s' % (cur['n'], out['n'])
+            if not ok_r:
+                for blk in f.cfg.blocks.values():
+                    if blk.cond is None or len(blk.succ) != 2:
+                        continue
+                    for k in (0, 1):
+                        if any(l == cur['n'] and rr == out['n'] and o == '>=' for l, o, rr in q.edge_rels(f, blk.cond, k)) and blk.succ[k] is not None:
+                            advs = [st for st in f.stmts if st and st['k'] == 'CompoundAssignOperator' and st.get('op') == '+=' and f.path(st['ch'][0]) == out['n'] and
+                                    ((f.s(st['ch'][1]) or {}).get('cv') or 0) > 0]
+                            start = (blk.succ[k], 0)
+                            cp_ = f.cfg.point_of(blk.cond)
+                            if advs and cp_ is not None and f.cfg.dominates(cp_, rp) and \
+                                    not f.cfg.exists_path(start, rp, avoid=q.pts(f, advs), src_inclusive=True):
+                                ok_r, why = True, 'where %s >= %s the candidate is advanced by a positive constant before the return' % (cur['n'], out['n'])
+            just.append(ok_r)
+        strict = bool(just) and all(just)
         if not strict and any('cron_next' in (c.get('callee') or '') for c in f.calls()):
             strict = True
             why = 'delegates to ccronexpr cron_next(), whose contract is "first instant after the given one"'
